@@ -242,6 +242,7 @@ fn m_first_servings(m: &crate::model::RecipeM) -> Option<u32> {
                     YamlM::Int(i) => Some(*i as u32),
                     YamlM::List(l) => match l.first() {
                         Some(YamlM::Int(i)) => Some(*i as u32),
+                        Some(YamlM::Str(s)) => s.split(' ').next().and_then(|n| n.parse().ok()),
                         _ => None,
                     },
                     _ => None,
@@ -252,7 +253,7 @@ fn m_first_servings(m: &crate::model::RecipeM) -> Option<u32> {
     for b in &m.blocks {
         if let BlockM::Meta(k, v) = b {
             if k == "servings" {
-                return v.split('|').next().and_then(|s| s.trim().parse().ok());
+                return v.split('|').next().and_then(|s| s.trim().split(' ').next()?.parse().ok());
             }
         }
     }
@@ -274,8 +275,9 @@ pub fn run(tier: Tier) -> i32 {
                 (raw_recipe(Some(true)), f, 1u32..=64).prop_map(|(mut raw, f, servings)| {
                     // declare servings often
                     if servings % 3 != 0 {
-                        raw.front_std.push((servings % 2) as u8);
-                        raw.blocks.insert(0, RawBlock::StdMeta((servings % 2) as u8));
+                        let k = [0u8, 1, 8, 9][(servings % 4) as usize];
+                        raw.front_std.insert(0, k);
+                        raw.blocks.insert(0, RawBlock::StdMeta(k));
                     }
                     Case { raw, factor_bits: f.to_bits(), servings }
                 })
